@@ -92,6 +92,58 @@ def record_family(ctx: Ctx, name, make) -> dict:
     return {"runs": runs, "meta": {"alg": name, "total": total, "min_gap_between_classes": min(gaps) if gaps else None}}
 
 
+def digest_of_run(name: str) -> str:
+    """one tiny learn() of the named setup in THIS process; sha256 over all parameter leaves"""
+    import hashlib
+    import jax
+    import jax.random as jr
+    ctx = Ctx("C11", "thorough", 0)
+    try:
+        make = dict(setups(ctx))[name]
+        algo, env, mkpol, total = make()
+        trained = algo.learn(env, mkpol(jr.key(5)), total, key=jr.key(11), callback=None)
+        jax.effects_barrier()
+        return hashlib.sha256(b"".join(x.tobytes() for x in leaves(trained))).hexdigest()
+    finally:
+        ctx.cleanup()
+
+
+def cross_process(ctx: Ctx, rep: Report):
+    """"repeating it with the same inputs yields bit-identical parameters" also across interpreter processes: the same run in two
+    fresh processes with different PYTHONHASHSEED values (anything derived from hash(), id(), the pid or the clock differs there)"""
+    import os
+    import subprocess
+    import sys
+    from concurrent.futures import ThreadPoolExecutor
+    from pathlib import Path
+    names = [n for n, _ in setups(ctx)][:ctx.pick(2, 5)]
+    jobs = [(n, hs) for n in names for hs in ("101", "202")]
+
+    def one(job):
+        n, hs = job
+        env = dict(os.environ, PYTHONHASHSEED=hs, JAX_PLATFORMS="cpu")
+        p = subprocess.run([sys.executable, "-m", "lvf.props.c11", n], capture_output=True, text=True, env=env,
+                           cwd=str(Path(__file__).resolve().parents[2]), timeout=1800)
+        line = next((l for l in reversed(p.stdout.splitlines()) if l.startswith("DIGEST ")), None)
+        if p.returncode != 0 or line is None:
+            raise Machinery(f"C11 cross-process run of {n} failed: {(p.stderr or p.stdout)[-800:]}")
+        return n, hs, line.split()[1]
+    with ThreadPoolExecutor(max_workers=4) as ex:
+        res = list(ex.map(one, jobs))
+    cases = []
+    for n in names:
+        ds = sorted({d for (m, _, d) in res if m == n})
+        cases.append({"atoms": {"SameInputsGiveBitIdenticalParametersInAnotherProcess": len(ds) == 1}, "alg": n, "digests": ds})
+    v = tracecheck.validate(ctx, "trace/Trace_Atoms.tla", cases, "purity_xproc")
+    rep.traces += len(cases)
+    rep.evaluations += len(jobs)
+    rep.parts["cross_process_reproducibility"] = {"algorithms": names, "processes_per_algorithm": 2, "accepted": len(v.accepted), "rejected": len(v.rejected)}
+    for i, (l, clauses) in sorted(v.rejected.items()):
+        rep.violations.append(Violation(f"C11:{cases[i]['alg']}:" + "+".join(clauses),
+                                        f"{cases[i]['alg']}: the same learn() call in two interpreter processes (PYTHONHASHSEED 101 / 202) gives "
+                                        f"different parameters: {cases[i]['digests']}", "xproc", {"alg": cases[i]["alg"]}))
+
+
 def viol(v, traces, cases):
     out = []
     for i, (l, clauses) in sorted(v.rejected.items()):
@@ -129,9 +181,10 @@ def run(ctx: Ctx) -> Report:
         vb = tracecheck.validate(ctx, SPEC, [m, m2], "purity_selftest")
         if len(vb.rejected) != 2:
             raise Machinery("C11 binding self-test failed")
+    cross_process(ctx, rep)
     rep.samples.append({"kind": "learn() run family", "meta": traces[0]["meta"],
                         "runs": [{k: r[k] for k in ("key", "obs_name", "rep", "bits", "cls")} for r in traces[0]["runs"][:6]]})
-    rep.undecided += ["determinism across devices / processes (one CPU device here)",
+    rep.undecided += ["determinism across devices (one CPU device here)",
                       "bit-identity across different observer sets (different XLA programs; compared with tolerance 1e-5)"]
     rep.assumptions += ["same program + same inputs must be bit-identical; runs with different observer sets are compared up to 1e-5 "
                         "(an interfering observer changes which actions are sampled and moves parameters by >= 1e-3 in these runs)"]
@@ -140,9 +193,20 @@ def run(ctx: Ctx) -> Report:
 
 def replay(ctx: Ctx, driver: str, case: dict) -> Report:
     rep = Report()
+    if driver == "xproc":
+        cross_process(ctx, rep)
+        rep.violations = [v for v in rep.violations if v.case["alg"] == case["alg"]]
+        return rep
     name, make = next((n, m) for n, m in setups(ctx) if n == case["alg"])
     tr = record_family(ctx, name, make)
     v = tracecheck.validate(ctx, SPEC, [tr], "replay")
     rep.violations += viol(v, [tr], [case])
     rep.traces = 1
     return rep
+
+
+if __name__ == "__main__":
+    import os
+    import sys
+    os.environ.setdefault("JAX_PLATFORMS", "cpu")
+    print("DIGEST " + digest_of_run(sys.argv[1]))
